@@ -259,6 +259,7 @@ type found struct {
 	Message string `json:"message"`
 	Replay  string `json:"replay"`
 	Count   int64  `json:"count"`
+	Flaky   bool   `json:"flaky"`
 }
 
 // KnownFindings is /verif/known_findings.json.
@@ -486,6 +487,7 @@ func Check(spec *Spec, o Options) int {
 	var knownSeen []string
 	var lines []string
 	var violRecords []map[string]any
+	var unreproduced []string
 	for _, cl := range classes {
 		f := foundBy[cl]
 		if kf := matchKnown(known, spec.ID, cl); kf != nil {
@@ -497,6 +499,20 @@ func Check(spec *Spec, o Options) int {
 			return trouble("violation class %q has no replay file", cl)
 		}
 		code, outp := runReplay(bin, f.Replay, o.Tier)
+		if f.Flaky {
+			// the observation depends on nondeterminism outside the choice
+			// stream: it is reported if any of several replays shows a violation
+			for try := 0; try < 5 && code != 1 && code != 3; try++ {
+				code, outp = runReplay(bin, f.Replay, o.Tier)
+			}
+			if code == 3 {
+				code = 1
+			}
+			if code != 1 {
+				unreproduced = append(unreproduced, cl)
+				continue
+			}
+		}
 		if code != 1 {
 			return trouble("violation %q did not reproduce in a fresh process (replay exit %d); this is a simulator defect, not a finding\n%s\nworker message: %s", cl, code, tail(outp, 4000), f.Message)
 		}
@@ -548,6 +564,7 @@ func Check(spec *Spec, o Options) int {
 		"known_findings_reobserved":         knownSeen,
 		"violation_records":                 violRecords,
 		"self_tests_passed_before_this_run": selfTests,
+		"flaky_observations_not_reproduced_in_6_replays(not_reported)": unreproduced,
 	}
 	var zero []string
 	for k, v := range agg.Counters {
